@@ -844,7 +844,7 @@ def r116(rep: Report, ctx: Ctx) -> None:
     from .walkspec import TABLE
     rep.rule("R1.16", "gate tree -> node logic: one arm per kind of tree "
              "node, every child visited, leaves attached in the direction "
-             "asked for", 8)
+             "asked for", 7)
     check_table(rep, ctx, "R1.16", TABLE,
                 ["Node._load_logic_into_logic_list"])
     rep.rule("R1.17", "a logic block starts as a faithful, private mirror of "
@@ -983,7 +983,7 @@ def r128(rep: Report, ctx: Ctx) -> None:
     from .walkspec import NODE_TABLE
     rep.rule("R1.28", "model nodes: neighbours, logic and maps are kept per "
              "direction; kill flags and the lonely merge of a gate are "
-             "derived per path", 17)
+             "derived per path", 21)
     check_table(rep, ctx, "R1.28", NODE_TABLE, list(NODE_TABLE))
     from .walkspec import GRAPH_TABLE
     check_table(rep, ctx, "R1.28", GRAPH_TABLE, list(GRAPH_TABLE))
